@@ -25,7 +25,6 @@ package pac
 // RODC identifier, is kept (it is part of the data the checksums are computed over).
 //@ func (*pac.SignatureData).Unmarshal(k, b) (rb, err)
 //@   modifies *k
-//@   trusted_frame the reader works on a copy of b
 //@   ensures err == nil ==> len(b) >= 4 + pac_siglen(k.SignatureType) && k.SignatureType == le32at(b, 0)
 //@   ensures err == nil ==> len(k.Signature) == pac_siglen(k.SignatureType) && (forall i int :: 0 <= i && i < len(k.Signature) ==> k.Signature[i] == b[4 + i])
 //@   ensures err == nil ==> len(rb) == len(b) && (forall i int :: 0 <= i && i < len(b) ==> rb[i] == ite(4 <= i && i < 4 + pac_siglen(k.SignatureType), byte(0), b[i]))
@@ -41,7 +40,6 @@ package pac
 // Decoding keeps the PAC octets as Data and starts the to-be-signed copy ZeroSigData as an equal, separate buffer.
 //@ func (*pac.PACType).Unmarshal(pac, b) (err)
 //@   modifies *pac
-//@   trusted_frame the reader works on its own buffers
 //@   ensures pac.Data == b && len(pac.ZeroSigData) == len(b) && fresh(pac.ZeroSigData) && ref(pac.ZeroSigData) != 0
 //@   ensures forall i int :: 0 <= i && i < len(b) ==> pac.ZeroSigData[i] == b[i]
 //@   ensures err == nil ==> len(pac.Buffers) == int(pac.CBuffers)
@@ -50,7 +48,6 @@ package pac
 // (usage 17) of its declared type over ZeroSigData; ZeroSigData differs from the PAC octets only by zeroed octets.
 //@ func (*pac.PACType).ProcessPACInfoBuffers(pac, key, l) (err)
 //@   modifies *pac, elems(pac.ZeroSigData)
-//@   trusted_frame the buffer decoders fill structures they allocate themselves; only the PAC object and its to-be-signed copy are written
 //@   requires len(pac.ZeroSigData) == len(pac.Data) && ref(pac.ZeroSigData) != ref(pac.Data)
 //@   ensures err == nil ==> pac.KerbValidationInfo != nil && pac.ServerChecksum != nil && pac.KDCChecksum != nil && pac.ClientInfo != nil
 //@   ensures err == nil ==> exists t Ref :: cksum_etype_ok(int32(pac.ServerChecksum.SignatureType), t) && bytes(pac.ServerChecksum.Signature) == et_cksum(t, bytes(key.KeyValue), 17, bytes(pac.ZeroSigData))
